@@ -29,9 +29,12 @@ CLAIMED = {
  "C07": ("partial: (1) same-thread re-entrancy: the object machine models every guard that is alive across a call; every explored re-entrant history "
          "(callbacks emitting into / completing / unsubscribing the subject they are called from, through every operator) must end with status ok on "
          "both sides; (2) Theorem Rx.C07.ranked_no_deadlock(_strong): any number of threads acquiring RwLocks in strictly increasing rank never "
-         "deadlock (also under writer preference); (3) livelock: step budget on every explored case. NOT proved: that the whole crate follows one lock "
-         "ranking for every pipeline - that part is exploration (shuttle deadlock detector on all concurrent scenarios).",
-         "§5 C07", "Lean 4 proof (lock-order theorem, partial) + exploration of re-entrant and concurrent scenarios with deadlock detection"),
+         "deadlock (also under writer preference), with the verified trace checker checkTrace (checkTrace_sound_ranked); (3) livelock: step budget on every "
+         "explored case. Cross-thread tie: every concurrent scenario family (~400 scenarios) runs under seeded schedules; per execution the harness derives "
+         "the relation lock-held -> lock-acquired over lock instances; a re-acquisition, a cycle or a shuttle deadlock is a violation; rank certificates of a "
+         "sample of executions are re-checked by checkTrace in Lean (rxmodel lockrank). NOT proved: that the whole crate follows one lock ranking for every "
+         "pipeline and schedule - that part is exploration.",
+         "§5 C07", "Lean 4 proof (lock-order theorem + verified trace checker, partial) + exploration of re-entrant and concurrent scenarios with lock-order certificates"),
  "C03": ("Theorems Rx.Comb.merge_spec, amb_spec, concat_spec, zip_spec/zip_items/zip_timing, take_until_spec, skip_until_spec, sample_spec, flat_map_spec, "
          "ready_set_go_no_loss: the pure history machine of each combining operator (mirroring its closures and the StreamController) equals its ReactiveX "
          "list characterisation for ALL well-formed histories and any number of sources. combine_latest and sequence_equal are proved NOT to be the "
@@ -55,8 +58,10 @@ CLAIMED = {
          "two callbacks at once), observe_on_exact, abort_only_after_end, after_unsub_nothing, subscribe_on_runs_on_worker, subscribe_on_exact, observe_on_twice_*. "
          "That the real Mutex/Condvar queue refines the FIFO channel is C08. Tie: pipelines with observe_on/subscribe_on at several positions and stacked "
          "twice over synchronous and threaded sources under seeded schedules; delivered = what the same pipeline delivers sequentially (Lean model A), thread "
-         "affinity, no overlap, nothing after unsubscribe returned (no co-simulation of this LTS yet).",
-         "§5 C09", "Lean 4 proof: LTS invariants over an abstract FIFO channel + exploration of the real operators under seeded schedules"),
+         "affinity, no overlap, nothing after unsubscribe returned; PLUS co-simulation: every explored schedule of source thread / worker / unsubscriber on the real "
+         "observe_on and subscribe_on is replayed lock operation by lock operation through Handoff.step / SubOn.step (accepted_reachable: an accepted trace "
+         "ends in a Reachable state, so the theorems apply to it) and the LTS's ghost delivery log is compared with the callbacks' own record.",
+         "§5 C09", "Lean 4 proof: LTS invariants over an abstract FIFO channel + co-simulation of explored schedules + pipeline-level exploration"),
  "C10": ("Theorems Rx.SubjM.* (C10.lean) on the mirrored state machines of the four subject kinds for ALL call sequences: delivers_to_current, "
          "no_observer_after_terminal, no_observer_after_unsubscribe, registered_alive, terminated_not_registered, plain_log_spec, behavior_handover, "
          "replay_handover, async_last_only, log_contract. Tie: implementation = object machine on all cases; implementation = SubjM on directly "
@@ -67,8 +72,10 @@ CLAIMED = {
          "merge_prefix, merge_conserves: multiset + per-input order + one complete last), take_at_most_n, amb_one_winner, zip_tuples (multiset of the i-th "
          "pairings; delivery order may differ), all scripts, any number of inputs, all interleavings. flat_map/concat share sink_* with merge and are covered by "
          "exploration only. Tie: threaded sources feeding merge/concat/zip/amb/flat_map (with and without take) under seeded schedules, conservation "
-         "predicates on the recorded deliveries (no co-simulation of these LTSs yet).",
-         "§5 C11", "Lean 4 proof: LTS invariants + exploration of the real operators under seeded schedules"),
+         "predicates on the recorded deliveries; PLUS co-simulation of all four LTSs (merge through the StreamController, take, amb, zip): every explored "
+         "schedule of 2-3 raw emitting threads is replayed lock operation by lock operation and the ghost log compared with the callbacks' record "
+         "(the Amb LTS was refuted by the unchanged code this way - finalize is not one atomic step - and repaired, theorems re-proved).",
+         "§5 C11", "Lean 4 proof: LTS invariants + co-simulation of explored schedules + pipeline-level exploration"),
  "C13": ("Theorems Rx.ConnM.* (C13.lean) on the mirrored state machines of publish / ref_count / replay over SubjM, hot and cold-synchronous sources, ALL "
          "call sequences: publish_connects_only_on_connect, same_items_for_present, ref_count_first_last, at_most_one_source_subscription, "
          "replay_complete_history, replay_arrival, disconnect_stops_source. Convention proved: ref_count/replay connect once ever (never reconnect). "
@@ -83,15 +90,18 @@ CLAIMED = {
          "§5 C15", "Lean 4 proof (virtual-time LTSs, partial) + exploration in virtual time with thread accounting"),
  "C16": ("partial: Theorems Rx.Timed.* (C16.lean) in discrete virtual time, all periods and gap scripts, all interleavings within an instant: interval_ticks, "
          "timer_once, delay_times (order kept, hand-over d after receipt; delays accumulate because the source thread sleeps), timeout_exact (no ties), "
-         "debounce_subsequence, sample_subsequence. Tie: the real operators on the facade's virtual clock, (time, event) records compared with the property's "
-         "instants. NOT modelled: real time, scheduling latency, Instant/SystemTime values.",
+         "timeout_never_fires_on_slow_consumer (handling times of the consumer), debounce_subsequence, sample_subsequence. Tie: the real operators on the "
+         "facade's virtual clock; the expected (instant, event) lists are computed BY THE LEAN MODEL (Rx.Timed.expectedLine = the lists the theorems speak "
+         "about) for fixed and random gap / handling scripts and compared exactly. NOT modelled: real time, scheduling latency, Instant/SystemTime values.",
          "§5 C16", "Lean 4 proof (virtual-time LTSs, partial) + exploration on a virtual clock"),
  "C12": ("Theorems Rx.Conc.* (C12.lean) on lock-level LTSs of Subject, ReplaySubject, BehaviorSubject for any number of threads and programs: "
          "stays_subscribed_gets_all, per_producer_gap_free, no_duplicates, late_subscriber_suffix, unsubscriber_prefix. The late-subscriber clauses for "
          "Replay/Behavior are proved FALSE under concurrency (replay_late_subscriber_violated, behavior_late_subscriber_violated: shortest witness "
          "schedules) with partial theorems for non-overlapping subscribe - known findings F14. Tie: producer / late-subscriber / unsubscriber threads on the "
-         "real subjects under seeded schedules with the property's predicates on the recorded deliveries (no co-simulation for these LTSs yet).",
-         "§5 C12", "Lean 4 proof: LTS invariants + negation witnesses + exploration of the real subjects under seeded schedules"),
+         "real subjects under seeded schedules with the property's predicates on the recorded deliveries; PLUS co-simulation of the three LTSs: threads "
+         "running next / subscribe / unsubscribe programs on the real Subject, ReplaySubject, BehaviorSubject are replayed lock operation by lock operation "
+         "(ghost per-observer delivery logs, map size and liveness compared); the F14 schedules are ACCEPTED runs of the LTS (the model has the defect too).",
+         "§5 C12", "Lean 4 proof: LTS invariants + negation witnesses + co-simulation of explored schedules + exploration with the property's predicates"),
  "C14": ("Theorems Rx.C14.subscribe_independent, every_subscription_is_the_kernel_run, others_undisturbed, stays_ready (from the simulation theorem "
          "Rx.Sim.stdOp_sim, for every standard operator and ANY ready start world): the k-th subscriber of an Observable value sees what a sole subscriber "
          "would. Tie: every pipeline subscribed 2-3 times sequentially, interleaved on a hot source, and under retry with differing attempts; tap side "
